@@ -9,6 +9,7 @@ CONSTANTS
   HalvingInterval = 2
   MaxMoney = 30
   Horizon <- NoHorizon
+  RulesOff = {}
   Known <- NoKnown
   Keys = {1}
   Miners = {1}
